@@ -157,6 +157,15 @@ func newH(rng *rand.Rand, tr *sim.Trace, seg int, o opts) *H {
 	return newHAt(rng, tr, seg, o, "45.9.9.9:4000", "")
 }
 
+// newQuietH: a second, independent server whose events are not recorded (e.g. to obtain another node's tokens).
+func newQuietH(rng *rand.Rand, o opts, local string) *H {
+	tr, err := sim.NewTrace(os.DevNull)
+	if err != nil {
+		panic(err)
+	}
+	return newHAt(rng, tr, 0, o, local, "")
+}
+
 func newHAt(rng *rand.Rand, tr *sim.Trace, seg int, o opts, local string, node string) *H {
 	h := &H{rng: rng, tr: tr, seg: seg, o: o, node: node, ins: map[string]inInfo{}, calls: map[string][]int{},
 		rated: map[int]dht.QueryRateLimiting{}, writesOf: map[string]int{}, keyRL: map[string]dht.QueryRateLimiting{}}
@@ -501,9 +510,17 @@ type call struct {
 var callSeq int
 
 func (h *H) call(dst *net.UDPAddr, method string, in dht.QueryInput) *call {
+	return h.callT(dst, method, in, 0)
+}
+
+// callT: like call; with a deadline on the query's context when d > 0.
+func (h *H) callT(dst *net.UDPAddr, method string, in dht.QueryInput, d time.Duration) *call {
 	callSeq++
 	c := &call{k: callSeq, dst: dst, done: make(chan dht.QueryResult, 1)}
 	ctx, cancel := context.WithCancel(context.Background())
+	if d > 0 {
+		ctx, cancel = context.WithTimeout(context.Background(), d)
+	}
 	c.cancel = cancel
 	h.mu.Lock()
 	h.calls[dst.String()] = append(h.calls[dst.String()], c.k)
@@ -527,7 +544,7 @@ func (h *H) ret(c *call, d time.Duration) bool {
 		switch {
 		case r.Err == nil:
 			class = "reply"
-		case errors.Is(r.Err, context.Canceled):
+		case errors.Is(r.Err, context.Canceled), errors.Is(r.Err, context.DeadlineExceeded):
 			class = "ctx"
 		case errors.Is(r.Err, dht.TransactionTimeout):
 			class = "timeout"
